@@ -267,6 +267,12 @@ func (s *Service) validateAttestationData(_ context.Context,
 	duty *attester.Duty,
 	attestationData *phase0.AttestationData,
 ) error {
+	if attestationData == nil {
+		return fmt.Errorf("attestation request for slot %d returned no data", duty.Slot())
+	}
+	if attestationData.Source == nil || attestationData.Target == nil {
+		return fmt.Errorf("attestation request for slot %d returned data without source or target", duty.Slot())
+	}
 	if attestationData.Slot != duty.Slot() {
 		return fmt.Errorf("attestation request for slot %d returned data for slot %d", duty.Slot(), attestationData.Slot)
 	}
